@@ -59,7 +59,7 @@ def catalogue(s):
     for n in s["nodes"]:
         nn = n["n"]
         if n["t"] == "junc":
-            for k in ("elev_high", "dem2", "dem0", "demneg", "pat0", "pat1", "pat5", "patnw", "leak", "leak_window", "nodemand_list"):
+            for k in ("elev_high", "dem2", "dem2c", "dem0", "demneg", "pat0", "pat1", "pat5", "patnw", "leak", "leak_window", "nodemand_list"):
                 D.append({"k": k, "n": nn})
         elif n["t"] == "tank":
             for k in ("near_min", "near_max", "small", "vcurve", "tleak"):
@@ -128,6 +128,11 @@ def apply(s, d):
             n["elev"] = 70.0
         elif k == "dem2":
             n["demands"] = n["demands"] + [[0.004, "P5", "cat2"]]
+        elif k == "dem2c":
+            # a patterned entry FOLLOWED by a constant one (the order matters to a writer that goes through the list)
+            if not n["demands"]:
+                return None
+            n["demands"] = [[n["demands"][0][0], "P1", "dom"], [0.004, None, "cat2"]] + n["demands"][1:]
         elif k == "dem0":
             n["demands"] = [[0.0, None, None]]
         elif k == "nodemand_list":
@@ -243,11 +248,11 @@ def compatible(d1, d2):
         ok = {"reverse", "closed", "ctl_toggle"}
         return (d1["k"] in ok or d2["k"] in ok) and d1["k"] != d2["k"] and {d1["k"], d2["k"]} != {"closed", "ctl_toggle"}
     if "n" in d1 and "n" in d2 and d1["n"] == d2["n"]:
-        grp = lambda d: {"dem2": "dA", "dem0": "d", "demneg": "d", "nodemand_list": "d", "pat0": "d", "pat1": "d", "pat5": "d", "patnw": "dA", "leak": "lk",
+        grp = lambda d: {"dem2": "dA", "dem2c": "dA", "dem0": "d", "demneg": "d", "nodemand_list": "d", "pat0": "d", "pat1": "d", "pat5": "d", "patnw": "dA", "leak": "lk",
                          "leak_window": "lk", "tleak": "lk", "near_min": "lv", "near_max": "lv"}.get(d["k"], d["k"])
         if grp(d1) == grp(d2):
             return False
-        if {d1["k"], d2["k"]} & {"dem0", "nodemand_list", "demneg"} and {d1["k"], d2["k"]} & {"dem2", "pat0", "pat1", "pat5", "patnw"}:
+        if {d1["k"], d2["k"]} & {"dem0", "nodemand_list", "demneg"} and {d1["k"], d2["k"]} & {"dem2", "dem2c", "pat0", "pat1", "pat5", "patnw"}:
             return False
         if "as_tank" in (d1["k"], d2["k"]):
             return False
